@@ -71,6 +71,13 @@ PROPS = {
         uncovered=['bound on the number of state calls per cycle (termination, A7); init flag seen exactly by the first call of a state;'
                    ' last-start-wins across interleavings with a second thread; status derivation of HasStates (frappy/states.py): bounded / not covered'],
     ),
+    'C19': dict(
+        contract_files=['contracts/discovery.py'],
+        level='proof',
+        trusted_base=COMMON_TRUSTED + ['socket and json.loads contracts (json.loads raises only ValueError on texts up to 1024 characters)'],
+        uncovered=['the 508 byte budget and well-formedness of answers (string / JSON theory): bounded stand-in only; start-up broadcast'],
+        bounded=[CB('discovery-contracts', 'contracts/discovery.py', 'gens_discovery')],
+    ),
     'C07': dict(
         contract_files=['contracts/protocol.py'],
         level='proof',
